@@ -6,6 +6,7 @@ package main
 // UntypedInt (unbounded mathematical integer).
 
 import (
+	"strconv"
 	"fmt"
 	"go/types"
 	"math/big"
@@ -198,6 +199,11 @@ func init() {
 	}
 	e["(*math/big.Int).SetBytes"] = func(fr *frame, args []value) value {
 		bs := args[1].([]value)
+		if len(bs) == 1 {
+			if bb, ok := bs[0].(bigBytesV); ok {
+				return fr.bigSet(args[0], bigSym(bb.t))
+			}
+		}
 		allc := true
 		for _, b := range bs {
 			if _, ok := b.(uint8); !ok {
@@ -357,9 +363,74 @@ func init() {
 		case *big.Int:
 			return bytesToValue(x.Bytes())
 		case sym:
-			panic(engineAbort{"big.Int.Bytes of symbolic value"})
+			// big-bytes object: a one-element slice standing for the minimal big-endian encoding of |x|. It is
+			// understood by SetBytes, common.BytesToHash / LeftPadBytes and by copying; its length is only right
+			// for x != 0 (the callers here store / hash non-zero amounts or go through BytesToHash).
+			if fr.i.decideBool(fr, "(= "+x.t+" 0)") {
+				return []value{}
+			}
+			return []value{bigBytesV{"(abs " + x.t + ")"}}
 		}
 		return nil
+	}
+	padTo := func(fr *frame, bs []value, n int) ([]value, bool) {
+		if len(bs) != 1 {
+			return nil, false
+		}
+		bb, ok := bs[0].(bigBytesV)
+		if !ok {
+			return nil, false
+		}
+		if fr.i.decideBool(fr, "(>= "+bb.t+" "+pow2[8*n].String()+")") {
+			panic(engineAbort{"big-bytes object wider than its destination"})
+		}
+		// n fresh byte variables whose big-endian value is the number (linear, instead of div/mod terms)
+		st := fr.i.needState("big-bytes")
+		out := make([]value, n)
+		var parts []string
+		for k := 0; k < n; k++ {
+			t := st.fresh(fmt.Sprintf("bb%d", k), "Int")
+			st.addPC(rangeConstraint(types.Uint8, t))
+			out[k] = sym{t, types.Uint8}
+			if k == n-1 {
+				parts = append(parts, t)
+			} else {
+				parts = append(parts, "(* "+pow2[8*(n-1-k)].String()+" "+t+")")
+			}
+		}
+		st.addPC("(= " + bb.t + " (+ " + strings.Join(parts, " ") + "))")
+		return out, true
+	}
+	e["github.com/ethereum/go-ethereum/common.BytesToHash"] = func(fr *frame, args []value) value {
+		bs, _ := args[0].([]value)
+		if p, ok := padTo(fr, bs, 32); ok {
+			return array(p)
+		}
+		out := make(array, 32)
+		for k := range out {
+			out[k] = uint8(0)
+		}
+		if len(bs) > 32 {
+			bs = bs[len(bs)-32:]
+		}
+		copy(out[32-len(bs):], bs)
+		return out
+	}
+	e["github.com/ethereum/go-ethereum/common.LeftPadBytes"] = func(fr *frame, args []value) value {
+		bs, _ := args[0].([]value)
+		n := int(asInt64(args[1]))
+		if p, ok := padTo(fr, bs, n); ok {
+			return p
+		}
+		if n <= len(bs) {
+			return bs
+		}
+		out := make([]value, n)
+		for k := range out {
+			out[k] = uint8(0)
+		}
+		copy(out[n-len(bs):], bs)
+		return out
 	}
 	e["(*math/big.Int).FillBytes"] = func(fr *frame, args []value) value {
 		buf := args[1].([]value)
@@ -406,6 +477,38 @@ func init() {
 		return str(fr, args)
 	}
 	e["(*math/big.Int).Text"] = str
+	// decimal rendering of machine integers: concrete -> the real digits; symbolic -> the same injective
+	// marked rendering as big.Int.String (base 10 only)
+	fmtInt := func(fr *frame, args []value) value {
+		if s, ok := args[0].(sym); ok {
+			if len(args) > 1 {
+				if b, okb := args[1].(int); !okb || b != 10 {
+					panic(engineAbort{"strconv.Format* of a symbolic value in a base other than 10"})
+				}
+			}
+			return markString("big:" + s.t)
+		}
+		switch x := args[0].(type) {
+		case uint64:
+			b := 10
+			if len(args) > 1 {
+				b = args[1].(int)
+			}
+			return strconv.FormatUint(x, b)
+		case int64:
+			b := 10
+			if len(args) > 1 {
+				b = args[1].(int)
+			}
+			return strconv.FormatInt(x, b)
+		case int:
+			return strconv.Itoa(x)
+		}
+		panic(engineAbort{fmt.Sprintf("strconv.Format* of %T", args[0])})
+	}
+	e["strconv.FormatUint"] = fmtInt
+	e["strconv.FormatInt"] = fmtInt
+	e["strconv.Itoa"] = fmtInt
 	e["(*math/big.Int).Exp"] = func(fr *frame, args []value) value {
 		x, xok := fr.bigGet(args[1]).(*big.Int)
 		y, yok := fr.bigGet(args[2]).(*big.Int)
@@ -499,3 +602,6 @@ const strMark = "\x00⟦"
 
 func markString(s string) string { return strMark + s + "⟧" }
 func isMarked(s string) bool     { return strings.Contains(s, strMark) }
+
+// bigBytesV is the element of a big-bytes object (see (*big.Int).Bytes).
+type bigBytesV struct{ t string }
